@@ -506,6 +506,11 @@ impl<'this> InternalOptimisingLineFormatter<'this, '_> {
             ),
         };
 
+        // What follows a multi-line token continues on its last line only.
+        let last_line_length = self
+            .get_multiline_token_last_line_length(Some(first_token_index))
+            .unwrap_or(last_line_length);
+
         let invariants = self.get_formatting_invariant(0, line.1);
         if let (Some(DR::MustNotBreak), NL::Break) | (Some(DR::MustBreak), NL::Continue) =
             (invariants, new_line.to_raw())
@@ -1180,13 +1185,7 @@ impl<'this> InternalOptimisingLineFormatter<'this, '_> {
             .map(|decision| decision.last_line_length)
     }
 
-    fn get_token_line_length(
-        &self,
-        starting_ws: LineWhitespace,
-        prev_decision: &NodeRef<'this, TokenDecision>,
-        decision: Decision,
-        token_index: Option<usize>,
-    ) -> u32 {
+    fn get_multiline_token_last_line_length(&self, token_index: Option<usize>) -> Option<u32> {
         if let Some((
             TT::TextLiteral(TextLiteralKind::MultiLine) | TT::Comment(CommentKind::MultilineBlock),
             token_content,
@@ -1197,8 +1196,21 @@ impl<'this> InternalOptimisingLineFormatter<'this, '_> {
             // Multiline tokens necessarily have a break in them, so the line
             // length must be calculated.
             if let Some(last_line) = token_content.lines().skip(1).last() {
-                return last_line.len() as u32;
+                return Some(last_line.len() as u32);
             }
+        }
+        None
+    }
+
+    fn get_token_line_length(
+        &self,
+        starting_ws: LineWhitespace,
+        prev_decision: &NodeRef<'this, TokenDecision>,
+        decision: Decision,
+        token_index: Option<usize>,
+    ) -> u32 {
+        if let Some(last_line_length) = self.get_multiline_token_last_line_length(token_index) {
+            return last_line_length;
         }
         match (
             decision,
